@@ -87,16 +87,16 @@ def grep_gate():
 
 # which theorem files (and which theorems in them) are the proof obligations of each property
 PROPS = {
-    "C01": [("Rank.v", r"^C01_"), ("Instance.v", r"^I_C01_|^I_a_quantile|^I_a_rank"), ("Refine.v", r"Rf_plain_quantile|Rf_executable_quantile|Rf_plain_add"), ("Rounding.v", r"R_rnd64_rndQ|R_rndQ_mono|R_rndQ_int|R_q2f_correct"), ("Bridge.v", r"Bridge_C01_|Bridge_snapped|Bridge_index_|Bridge_gmap|Bridge_q2f")],
+    "C01": [("Rank.v", r"^C01_"), ("Instance.v", r"^I_C01_|^I_a_quantile|^I_a_rank"), ("Refine.v", r"Rf_plain_quantile|Rf_executable_quantile|Rf_plain_add"), ("Rounding.v", r"R_rnd64_rndQ|R_rndQ_mono|R_rndQ_int|R_q2f_correct"), ("Bridge.v", r"Bridge_C01_|Bridge_snapped|Bridge_index_|Bridge_gmap|Bridge_q2f"), ("GlueAcc.v", r"value_accuracy")],
     "C02": [("Sketch.v", r"^C02_"), ("LayerA.v", r"^A3_"), ("Refine.v", r"Rf_st_merge|Rf_sk_merge|Rf_sketch_history"), ("Misc.v", r"^GRID_"), ("Bridge.v", r"Bridge_C02_|Bridge_observers|Bridge_a_run")],
-    "C03": [("C03.v", r"."), ("Glue.v", r"."), ("Bridge.v", r"Bridge_index_|Bridge_gmap|Bridge_gm_checkb")],
+    "C03": [("C03.v", r"."), ("Glue.v", r"."), ("GlueAcc.v", r"."), ("Bridge.v", r"Bridge_index_|Bridge_gmap|Bridge_gm_checkb")],
     "C04": [("C04dense.v", r"."), ("C04pag.v", r"."), ("C04pagloops.v", r"."), ("C04sparse.v", r"."), ("LayerA.v", r"^A[1-7]_"), ("Refine.v", r"^Rf_st_|^Rf_StInv"), ("Misc.v", r"^GRID_")],
     "C05": [("C05.v", r"."), ("LayerA.v", r"^A8_"), ("Sketch2.v", r"^C05_")],
     "C06": [("Wire.v", r"^C06_"), ("WireRaw.v", r"concat"), ("WireAny.v", r"^C06_"), ("WireAny2.v", r"^C06_x_")],
     "C07": [("Wire.v", r"^C07_"), ("WireRaw.v", r"."), ("WireAny.v", r"^C07_"), ("WireAny2.v", r"^C07_x_")],
     "C08": [("Wire.v", r"^C08_"), ("WireAny.v", r"^C08_"), ("WireAny2.v", r"^C08_x_"), ("C18.v", r"prefix_eof|reads_at_most_9"), ("C19.v", r"truncated|short_input|unknown_mapping")],
     "C09": [("Proto.v", r"."), ("Misc.v", r"^C09_b_")],
-    "C10": [("C10.v", r"."), ("Kahan.v", r"."), ("Misc.v", r"^C10_f_")],
+    "C10": [("C10.v", r"."), ("Kahan.v", r"."), ("Kahan2.v", r"."), ("Misc.v", r"^C10_f_")],
     "C11": [("Rank.v", r"^C11_"), ("Instance.v", r"^I_C11_"), ("Sketch2.v", r"^C11_")],
     "C12": [("Sketch.v", r"^C12_"), ("Instance.v", r"^I_C12_"), ("Refine.v", r"Rf_plain_count|Rf_plain_is_empty|Rf_plain_max|Rf_plain_min|Rf_sk_foreach"), ("Sketch2.v", r"^C12_|^I_C12_")],
     "C13": [("Sketch.v", r"^C13_"), ("Refine.v", r"too_high|too_low|no_panic|Rf_sk_add"), ("Bridge.v", r"Bridge_with_")],
